@@ -30,6 +30,9 @@ func init() {
 			"(a) every pair is built and run solo and its outcome (acceptance + every bound value) recorded; (c) built and run a second time: same outcome; " +
 			"(b) the pool is run sequentially in random permutations in the same process: every outcome equal to solo; (d) 2-4 applications are all declared first and then run in a random order: every outcome equal to solo; (g) one application object run on several command lines in turn reproduces the outcomes of fresh objects; (e) an Action that itself builds and runs another application, and two concurrently run applications whose Actions meet over an unbuffered channel, complete with their solo outcomes (a wall-clock watchdog of 20 s only reports a violation when the goroutine dump shows a lock wait inside the library); every solo outcome is also compared with the reference verdict; (a') 16 goroutines each build and run randomly drawn pairs concurrently, under the race detector: " +
 			"every outcome equal to solo and no data race reported (race reports are collected from the detector's log, deduplicated by the top frames). The evidence reports how many runs overlapped (in-flight counter sampled at Run entry). " +
+			"Also in every round: (h) applications declared while their environment variables are unset and run after they were exported (and the other way round) behave like never-set / always-set ones; " +
+			"(i) applications that end badly (an ill-formed sub-command spec met while rendering help, a panicking Action, Exit plus a panicking After, a version request under ExitOnError) followed by pool applications, with both library streams captured over the whole sequence: solo outcomes, usage on the error stream, nothing on standard output, no lock left behind (goroutine dump inspected on a 20 s wait); a nameless application does not print the binary's name; " +
+			"(k) the default error policy is ExitOnError whatever flag.CommandLine is set to; (j) during the concurrent phase every tenth step declares and runs an application whose command, option and argument names are new to the process. The pool also holds spec-less programs, programs declaring a version flag and spec-level --/env-backed variants. " +
 			"non-trivial = a concurrent run that overlapped with at least one other; distinct by (round, goroutine, draw).",
 		Assumptions: []string{
 			"'all interleavings' is restated as: the interleavings the scheduler produced in the observed runs; the race detector only sees accesses that were executed",
